@@ -71,8 +71,11 @@ def numpy_pandas_coerce_failure_cases(
                 "only numpy arrays of 1 or 2 dimensions are supported"
             )
 
-    if is_index(data_container):
-        data_container = data_container.to_series()  # type: ignore[union-attr,operator]
+    from_index = is_index(data_container)
+    if from_index:
+        # the labels of an index are its values: select the failure cases by
+        # position, since the values may not be comparable with each other
+        data_container = data_container.to_series().reset_index(drop=True)  # type: ignore[union-attr,operator]
 
     if is_table(data_container):
         check_output = data_container.apply(  # type: ignore[union-attr,call-overload]
@@ -102,4 +105,6 @@ def numpy_pandas_coerce_failure_cases(
     )
     if failure_cases.empty:
         return None
+    if from_index:
+        failure_cases["index"] = failure_cases["failure_case"]
     return failure_cases
